@@ -19,6 +19,7 @@ import json
 import os
 import pathlib
 import random
+import re
 import shutil
 import tempfile
 import time
@@ -486,7 +487,7 @@ def run_requests(ctx, sess, drv, stream, reqs, tally, targets=None, cross_target
                                      str(want_lean[i])[:1500], answers[t.name][i][:1500])
             k = same_outcome(e, want_ref[i], got, nans[i])
             if k is not None:
-                sig = signature(e, want_ref[i], got, k) if got[0] in ("ser", "de", "rt") else (got[1][:80] if got[0] in ("crash", "exc") else "-")
+                sig = signature(e, want_ref[i], got, k) if got[0] in ("ser", "de", "rt") else (re.sub(r"\d+", "N", got[1])[:80] if got[0] in ("crash", "exc") else "-")
                 # leaf = the primitive / item the difference sits in: a stable handle for known_findings.json matches
                 key = {"kind": f"{r.op}:{k}", "lang": t.lang, "sig": sig, "leaf": sig.rsplit(".", 1)[-1]}
                 tally.fail(key, f"{t.name}: {r.op} of {r.gt.full_name} differs from the DSDL rules ({k} at {sig})",
